@@ -163,6 +163,8 @@ type PoolEntry struct {
 	Subscribers    int
 	MaxSubscribers int
 	Flags          uint32
+
+	slots []bool // which of the MaxSubscribers port blocks are handed out
 }
 
 // Allocation tracks NAT allocation for a subscriber
@@ -327,6 +329,7 @@ func (m *Manager) AddPublicIP(ip net.IP) error {
 		Subscribers:    0,
 		MaxSubscribers: maxSubs,
 		Flags:          m.buildFlags(),
+		slots:          make([]bool, maxSubs),
 	}
 
 	m.pool = append(m.pool, entry)
@@ -424,10 +427,26 @@ func (m *Manager) AllocateNAT(privateIP net.IP) (*Allocation, error) {
 	}
 	m.allocationMu.RUnlock()
 
+	// Pick the first public IP with a free port block, and the first free block on it.
+	// (The block index must not be derived from the live subscriber count: after a release
+	// from the middle the count points at a block that is still in use.)
 	var selectedPool *PoolEntry
 	var poolIndex int
+	slot := -1
 	for i := range m.pool {
-		if m.pool[i].Subscribers < m.pool[i].MaxSubscribers {
+		if m.pool[i].Subscribers >= m.pool[i].MaxSubscribers {
+			continue
+		}
+		if len(m.pool[i].slots) != m.pool[i].MaxSubscribers {
+			m.pool[i].slots = make([]bool, m.pool[i].MaxSubscribers) // entry built without AddPublicIP
+		}
+		for k, used := range m.pool[i].slots {
+			if !used {
+				slot = k
+				break
+			}
+		}
+		if slot >= 0 {
 			selectedPool = &m.pool[i]
 			poolIndex = i
 			break
@@ -438,8 +457,8 @@ func (m *Manager) AllocateNAT(privateIP net.IP) (*Allocation, error) {
 		return nil, fmt.Errorf("NAT pool exhausted: no available public IPs")
 	}
 
-	// Calculate port range for this subscriber (deterministic based on subscriber count)
-	portStart := uint16(m.portRangeStart + (selectedPool.Subscribers * m.portsPerSubscriber))
+	// Calculate port range for this subscriber from its block index
+	portStart := uint16(m.portRangeStart + (slot * m.portsPerSubscriber))
 	portEnd := portStart + uint16(m.portsPerSubscriber) - 1
 
 	// Get or create subscriber ID
@@ -485,6 +504,7 @@ func (m *Manager) AllocateNAT(privateIP net.IP) (*Allocation, error) {
 	m.allocationMu.Unlock()
 
 	selectedPool.Subscribers++
+	selectedPool.slots[slot] = true
 
 	// Log allocation event
 	if m.natLogger != nil {
@@ -530,7 +550,11 @@ func (m *Manager) DeallocateNAT(privateIP net.IP) error {
 	// Update pool count
 	m.poolMu.Lock()
 	if allocation.PoolIndex < len(m.pool) {
-		m.pool[allocation.PoolIndex].Subscribers--
+		entry := &m.pool[allocation.PoolIndex]
+		entry.Subscribers--
+		if slot := (int(allocation.PortStart) - m.portRangeStart) / m.portsPerSubscriber; slot >= 0 && slot < len(entry.slots) {
+			entry.slots[slot] = false
+		}
 	}
 	m.poolMu.Unlock()
 
